@@ -24,6 +24,7 @@ def dispatch (line : String) : String :=
   | "patch" :: rest => patchLine rest
   | "num" :: rest => numberLine rest
   | "big" :: rest => bigLine rest
+  | "bigl" :: rest => bigLimbLine rest
   | "jt" :: rest => jsonTextLine rest
   | "src" :: rest => sourceLine rest
   | "bin" :: rest => binaryLine rest
